@@ -541,6 +541,20 @@ def r5_selection(ctx):
             t = val.generators[0].ifs[0]
             if isinstance(t, ast.Compare) and isinstance(t.ops[0], ast.NotIn) and F.is_name(t.left, val.elt.id):
                 A, B = val.generators[0].iter, t.comparators[0]
+        if A is None and isinstance(val, ast.SetComp) and len(val.generators) == 1 and val.generators[0].ifs \
+                and F.is_name(val.elt, getattr(val.generators[0].target, 'id', None)):
+            it_ = val.generators[0].iter
+            inner_diff = (isinstance(it_, ast.BinOp) and isinstance(it_.op, ast.Sub)) or (
+                isinstance(it_, ast.Call) and isinstance(it_.func, ast.Attribute) and it_.func.attr == 'difference')
+            if isinstance(it_, ast.Name):
+                vals_ = [a_.value for a_ in walk_local(valid.node) if isinstance(a_, ast.Assign) and any(F.is_name(t_, it_.id) for t_ in a_.targets)]
+                inner_diff = len(vals_) == 1 and ((isinstance(vals_[0], ast.BinOp) and isinstance(vals_[0].op, ast.Sub)) or (
+                    isinstance(vals_[0], ast.Call) and isinstance(vals_[0].func, ast.Attribute) and vals_[0].func.attr == 'difference'))
+            if inner_diff:
+                ctx.violation('R5', at, valid.qualname, 'valid-extra-filter',
+                              f'valid filters the difference closure(include) - closure(exclude) once more (`if {src(val.generators[0].ifs[0])[:70]}`): '
+                              f'a category that is selected by that difference (a group whose members were all excluded, ...) is dropped')
+                continue
         if A is None:
             if isinstance(val, ast.Name) or any(isinstance(n_, ast.Name) and ('@' in n_.id or '#' in n_.id) for n_ in ast.walk(val)):
                 # the result is accumulated in place (a loop the set algebra does not follow): unknown, not wrong
